@@ -115,6 +115,18 @@ func (f *FaultDB) Put(key, value []byte) error {
 	return nil
 }
 
+// isInitWrite: commit idx was a direct window write (a lazy filter initialisation).
+func (f *FaultDB) isInitWrite(idx int) bool {
+	f.mu.Lock()
+	defer f.mu.Unlock()
+	for _, i := range f.directWin {
+		if i == idx {
+			return true
+		}
+	}
+	return false
+}
+
 // initWritesBetween counts the lazy-initialisation window writes with lo < index < hi.
 func (f *FaultDB) initWritesBetween(lo, hi int) int {
 	f.mu.Lock()
@@ -216,25 +228,71 @@ func (f *FaultDB) NewIndexedBatchWithSize(n int) db.IndexedBatch {
 	return &faultBatch{IndexedBatch: f.inner.NewIndexedBatchWithSize(n), f: f}
 }
 
-// Update / Write mirror the backends: run the closure on a fresh batch, drop the batch when the
-// closure fails, otherwise commit it.
+// Update / Write run the BACKEND'S OWN Update / Write (memory.Database.Update, pebblev2.DB.Update:
+// batch creation, closure, discard on error, commit), so that code is executed as in production.
+// The commit is numbered, and made to fail, at the last moment before the backend commits: the
+// wrapped closure returns the injected error after the real closure has succeeded, upon which the
+// backend discards the batch — exactly a commit of which nothing was applied.
 func (f *FaultDB) Update(fn func(db.IndexedBatch) error) error {
-	b := f.NewIndexedBatch()
-	if err := fn(b); err != nil {
-		_ = b.Close()
-		return err
+	idx, n := 0, 0
+	err := f.inner.Update(func(b db.IndexedBatch) error {
+		cb := &countIndexed{IndexedBatch: b}
+		if err := fn(cb); err != nil {
+			return err
+		}
+		var fail bool
+		if idx, fail = f.begin(); fail {
+			return errInjected
+		}
+		n = cb.n
+		return nil
+	})
+	if err == nil {
+		f.done(idx, n)
 	}
-	return b.Write()
+	return err
 }
 
 func (f *FaultDB) Write(fn func(db.Batch) error) error {
-	b := f.NewBatch()
-	if err := fn(b); err != nil {
-		_ = b.Close()
-		return err
+	idx, n := 0, 0
+	err := f.inner.Write(func(b db.Batch) error {
+		cb := &countBatch{Batch: b}
+		if err := fn(cb); err != nil {
+			return err
+		}
+		var fail bool
+		if idx, fail = f.begin(); fail {
+			return errInjected
+		}
+		n = cb.n
+		return nil
+	})
+	if err == nil {
+		f.done(idx, n)
 	}
-	return b.Write()
+	return err
 }
+
+type countIndexed struct {
+	db.IndexedBatch
+	n int
+}
+
+func (b *countIndexed) Put(k, v []byte) error { b.n++; return b.IndexedBatch.Put(k, v) }
+func (b *countIndexed) Delete(k []byte) error { b.n++; return b.IndexedBatch.Delete(k) }
+func (b *countIndexed) DeleteRange(s, e []byte) error {
+	b.n++
+	return b.IndexedBatch.DeleteRange(s, e)
+}
+
+type countBatch struct {
+	db.Batch
+	n int
+}
+
+func (b *countBatch) Put(k, v []byte) error         { b.n++; return b.Batch.Put(k, v) }
+func (b *countBatch) Delete(k []byte) error         { b.n++; return b.Batch.Delete(k) }
+func (b *countBatch) DeleteRange(s, e []byte) error { b.n++; return b.Batch.DeleteRange(s, e) }
 
 var _ db.KeyValueStore = (*FaultDB)(nil)
 
